@@ -156,6 +156,9 @@ class CallsMixin:
             for (pn, pt, _), v in zip(ps, argv):
                 binds[pn] = v
             rnames = [r[0] for r in rs]
+            rn = c.get('results')
+            if rn:                         # unnamed results named by the contract
+                rnames = rn[0].text.replace(',', ' ').split()
         else:
             hdr = c.get('param')
             pnames = hdr[0].text.replace(',', ' ').split() if hdr else []
@@ -197,6 +200,7 @@ class CallsMixin:
             rb['result'] = results[0]
         env_post = SpecEnv(st, rb, old)
         env_post.binds_old = binds
+        env_post.assume_mode = True
         for cl in c.get('ghost'):
             self.ghost_assign(st, env_post, cl)
         for cl in c.get('ensures'):
